@@ -7,6 +7,8 @@ AS_H = 'src/tbb/arena_slot.h'
 TD_CPP = 'src/tbb/task_dispatcher.cpp'
 PF_H = 'include/oneapi/tbb/parallel_for.h'
 MB_H = 'src/tbb/mailbox.h'
+SRW_H = 'include/oneapi/tbb/spin_rw_mutex.h'
+QRW_CPP = 'src/tbb/queuing_rw_mutex.cpp'
 PP_CPP = 'src/tbb/parallel_pipeline.cpp'
 PT_H = 'include/oneapi/tbb/partitioner.h'
 TGC_CPP = 'src/tbb/task_group_context.cpp'
@@ -292,6 +294,46 @@ MUTANTS = [
         (PP_CPP, "        my_at_start(false)\n    {\n        my_pipeline.wait_ctx.reserve();\n    }", "        my_at_start(false)\n    {\n    }")]),
     dict(name='c07-execute-no-finalize', prop='C07', clause='D4', edits=[
         (PP_CPP, "        if(!execute_filter(ed)) {\n            finalize(ed);\n            return nullptr;\n        }", "        if(!execute_filter(ed)) {\n            return nullptr;\n        }")]),
+    # ---------------------------------------------------------------- C08
+    dict(name='c08-trylock-writer-mask', prop='C08', clause='D2', edits=[
+        (SRW_H, "        state_type s = m_state.load(std::memory_order_relaxed);\n        if (!(s & BUSY)) { // no readers, no writers; mask is 1..1101\n            if (m_state.compare_exchange_strong(s, WRITER)) {",
+         "        state_type s = m_state.load(std::memory_order_relaxed);\n        if (!(s & WRITER)) { // no readers, no writers; mask is 1..1101\n            if (m_state.compare_exchange_strong(s, WRITER)) {")]),
+    dict(name='c08-try_lock_shared-no-undo', prop='C08', clause='D2', edits=[
+        (SRW_H, "                return true; // successfully stored increased number of readers\n            }\n            // writer got there first, undo the increment\n            m_state -= ONE_READER;",
+         "                return true; // successfully stored increased number of readers\n            }\n            // writer got there first, undo the increment")]),
+    dict(name='c08-spin-unlock-relaxed', prop='C08', clause='D1', edits=[
+        ('include/oneapi/tbb/spin_mutex.h', "        m_flag.store(false, std::memory_order_release);", "        m_flag.store(false, std::memory_order_relaxed);")]),
+    dict(name='c08-queuing-handoff-relaxed', prop='C08', clause='D1', edits=[
+        ('include/oneapi/tbb/queuing_mutex.h', "            m_next.load(std::memory_order_acquire)->m_going.store(1U, std::memory_order_release);",
+         "            m_next.load(std::memory_order_acquire)->m_going.store(1U, std::memory_order_relaxed);")]),
+    dict(name='c08-qrw-grant-relaxed', prop='C08', clause='D1', edits=[
+        (QRW_CPP, "                tricky_pointer::load(s.my_next, std::memory_order_relaxed)->my_going.store(1U, std::memory_order_release);",
+         "                tricky_pointer::load(s.my_next, std::memory_order_relaxed)->my_going.store(1U, std::memory_order_relaxed);")]),
+    dict(name='c08-qrw-enqueue-relaxed', prop='C08', clause='D1', edits=[
+        (QRW_CPP, "        queuing_rw_mutex::scoped_lock* predecessor = m.q_tail.exchange(&s, std::memory_order_acq_rel);",
+         "        queuing_rw_mutex::scoped_lock* predecessor = m.q_tail.exchange(&s, std::memory_order_acquire);")]),
+    dict(name='c08-rw-unlock-store', prop='C08', clause='D1', edits=[
+        (SRW_H, "        call_itt_notify(releasing, this);\n        m_state &= READERS;", "        call_itt_notify(releasing, this);\n        m_state.store(m_state.load(std::memory_order_relaxed) & READERS, std::memory_order_release);")]),
+    dict(name='c08-upgrade-true-after-slow', prop='C08', clause='D4', edits=[
+        (SRW_H, "        // Slow reacquire\n        unlock_shared();\n        lock();\n        return false;", "        // Slow reacquire\n        unlock_shared();\n        lock();\n        return true;")]),
+    dict(name='c08-upgrade-false-without-lock', prop='C08', clause='D4', edits=[
+        ('include/oneapi/tbb/rw_mutex.h', "        // Slow reacquire\n        unlock_shared();\n        lock();\n        return false;", "        // Slow reacquire\n        unlock_shared();\n        return false;")]),
+    dict(name='c08-trylock-spins', prop='C08', clause='D3', edits=[
+        ('include/oneapi/tbb/spin_mutex.h', "        bool result = !m_flag.exchange(true);", "        atomic_backoff b; b.pause();\n        bool result = !m_flag.exchange(true);")]),
+    dict(name='c08-scoped-try-records-always', prop='C08', clause='D3', edits=[
+        ('include/oneapi/tbb/detail/_scoped_lock.h', "        bool succeed = m.try_lock();\n        if (succeed) {\n            m_mutex = &m;\n        }", "        bool succeed = m.try_lock();\n        m_mutex = &m;")]),
+    dict(name='c08-rtm-try-blocks', prop='C08', clause='D3', edits=[
+        ('src/tbb/rtm_mutex.cpp', "                if(m.m_flag.load(std::memory_order_acquire)) {\n                    if(only_speculate) return;", "                if(m.m_flag.load(std::memory_order_acquire)) {")]),
+    dict(name='c08-lock-copyable', prop='C08', clause='D5', edits=[
+        ('include/oneapi/tbb/detail/_scoped_lock.h', "    unique_scoped_lock(const unique_scoped_lock&) = delete;", "    unique_scoped_lock(const unique_scoped_lock&) = default;")]),
+    dict(name='c08-one-reader-2', prop='C08', clause='D5', edits=[
+        (SRW_H, "    static constexpr state_type ONE_READER = 4;", "    static constexpr state_type ONE_READER = 2;")]),
+    dict(name='c08-dtor-no-release', prop='C08', clause='D5', edits=[
+        ('include/oneapi/tbb/detail/_scoped_lock.h', "    ~rw_scoped_lock() {\n        if (m_mutex) {\n            release();\n        }\n    }", "    ~rw_scoped_lock() {\n    }")]),
+    dict(name='c08-qtail-store', prop='C08', clause='D6', edits=[
+        ('include/oneapi/tbb/queuing_mutex.h', "                if (m_mutex->q_tail.compare_exchange_strong(expected, nullptr)) {", "                if (m_mutex->q_tail.load() == expected && (m_mutex->q_tail.store(nullptr), true)) {")]),
+    dict(name='c08-qrw-internal-lock-leak', prop='C08', clause='D1', edits=[
+        (QRW_CPP, "                next->my_going.store(1U, std::memory_order_release);\n                unblock_or_wait_on_internal_lock(s, get_flag(tmp));", "                next->my_going.store(1U, std::memory_order_release);\n                (void)tmp;")]),
 ]
 
 BENIGN = [
@@ -321,4 +363,6 @@ BENIGN = [
     dict(name='c07-b-manual-lock', prop='C07', edits=[
         (PP_CPP, "        task_info wakee;\n        {\n            spin_mutex::scoped_lock lock( array_mutex );\n            // Wake the next task",
          "        task_info wakee;\n        {\n            spin_mutex::scoped_lock lock;\n            lock.acquire( array_mutex );\n            // Wake the next task")]),
+    dict(name='c08-b-stronger', prop='C08', edits=[
+        ('include/oneapi/tbb/spin_mutex.h', "        m_flag.store(false, std::memory_order_release);", "        m_flag.exchange(false);")]),
 ]
